@@ -316,7 +316,7 @@ class EditStream(HTMLHandlerBase):
     def post(self, mps_name: str) -> flask.Response:
         data = flask.request.json
         if not data:
-            logging.waring('JSON payload missing')
+            logging.warning('JSON payload missing')
             return jsonify_no_content(400)
         csrf_key = self.generate_csrf_cookie()
         csrf_token = self.generate_csrf_token('streams', csrf_key)
@@ -346,7 +346,7 @@ class EditStream(HTMLHandlerBase):
             for period in data['periods']:
                 err: str | None = process_period(current_mps, period)
                 if err is not None:
-                    errors.push(err)
+                    errors.append(err)
             if not errors:
                 models.db.session.flush()
                 models.db.session.commit()
